@@ -13,7 +13,7 @@ pub fn property() -> Property {
     Property {
         id: "C04",
         level: "exploration",
-        rule: "Generator-built response heads (status 100..999 exhaustively; reason phrases absent/multi-word/UTF-8/Latin-1 and other non-UTF-8 obs-text/long; Content-Encoding (gzip, deflate, br, ...) and Content-Length fields that the body pipeline consumes; version tokens HTTP/1.1, HTTP/1.0, ICY, arbitrary; header lists of 0..max_headers fields with names over the RFC token alphabet, values over visible ASCII + inner spaces + obs-text + empty, surrounding blanks, adjacent and interleaved duplicates, bare-LF continuations, lines up to 16 000 bytes and of exactly 16 382 / 16 383 / 16 384 bytes (the line limit, line ending included; as first field, last field or status line, plain or with bare-LF continuations), blocks > 8 KiB, exactly max_headers fields for max_headers in {1,2,7,100,1000}, and heads within the boundary limits {0, 24 577, 100 000, u32::MAX, usize::MAX}; Transfer-Encoding: chunked inserted at a random position) served under all 2^(n-1) segmentations of a 14-byte head (exhaustive), bytewise, every single split, or random segments. Oracle: status() == code sent; for every name the get_all() sequence equals the generator's values in wire order after (trim spaces, LF -> space); total count equal; Transfer-Encoding absent. Non-trivial: >= 1 header field or >= 2 segments; distinct = hash(head bytes, segmentation, max_headers).",
+        rule: "Generator-built response heads (status 100..999 exhaustively; reason phrases absent/multi-word/UTF-8/Latin-1 and other non-UTF-8 obs-text/long; Content-Encoding (gzip, deflate, br, ...) and Content-Length fields that the body pipeline consumes; version tokens HTTP/1.1, HTTP/1.0, ICY, arbitrary; header lists of 0..max_headers fields with names over the RFC token alphabet, values over visible ASCII + inner spaces + obs-text + empty, surrounding blanks, adjacent and interleaved duplicates, bare-LF continuations, lines up to 16 000 bytes and of exactly 16 382 / 16 383 / 16 384 bytes (the line limit, line ending included; as first field, last field or status line, plain or with bare-LF continuations), blocks > 8 KiB, exactly max_headers fields for max_headers in {1,2,7,100,1000}, and heads within the boundary limits {0, 24 577, 100 000, u32::MAX, usize::MAX}; Transfer-Encoding: chunked inserted at a random position) served under all 2^(n-1) segmentations of a 14-byte head (exhaustive), bytewise, every single split, or random segments. Field names are 1..24 bytes, a sixth 60..70 or 65..400 bytes. Oracle: status() == code sent; for every name the get_all() sequence equals the generator's values in wire order after (trim spaces, LF -> space); total count equal; Transfer-Encoding absent. Non-trivial: >= 1 header field or >= 2 segments; distinct = hash(head bytes, segmentation, max_headers).",
         assumptions: &["only syntactically valid heads are generated (invalid names/values belong to C05)", "HTAB padding and blanks before the colon are not generated (the statement speaks of spaces)"],
         min_nontrivial: |t| t.pick(5_000, 100_000),
         gens,
@@ -92,7 +92,13 @@ fn random_name(rng: &mut Rng) -> String {
     if rng.chance(2, 5) {
         return (*rng.pick(POOL)).to_owned();
     }
-    let len = rng.range(1, 24);
+    // (most names are short; some sit around 64 bytes - the size of the name-normalisation buffer
+    //  of the `http` crate - and some are far longer)
+    let len = match rng.below(12) {
+        0 => rng.range(60, 70),
+        1 => rng.range(65, 400),
+        _ => rng.range(1, 24),
+    };
     let mut s = String::new();
     for _ in 0..len {
         let c = match rng.below(10) {
